@@ -84,7 +84,10 @@ def gen_case(rng, tier, *, semi=False, metrics=None, force_tie_free=False, allow
         case["prefit"] = {"X": P[:n].tolist(), "Y": gen.make_labels(rng, P[:n], "random").tolist(), "U": P[n:].tolist(),
                           "inplace": bool(rng.random() < 0.5)}
     if gc == "G2" and rng.random() < 0.3 and metric in gen.SAFE_METRICS:
-        case["int_features"] = True          # the lattice handed over as an int64 matrix (queries stay float)
+        case["int_features"] = True          # the lattice handed over as an int64 matrix (queries and unlabeled rows stay float,
+        case["U"] = (np.array(case["U"], dtype=float).reshape(-1, d) + 0.25).tolist() if len(case["U"]) else []      # and fractional)
+    if semi and len(case["U"]) == 0:
+        case["empty_U_as"] = str(rng.choice(["2d", "2d", "list", "array1d"]))
     if rng.random() < 0.08:
         case["I_onthefly"] = [int(v) for v in rng.integers(0, max(2, n // 2), size=n)]   # identifiers (with repeats) beside a feature metric
     if allow_pre and rng.random() < 0.25:
@@ -167,6 +170,10 @@ def run_case(case, with_prim_hook=True, with_heap_hooks=True):
         if o.prefit.ok and len(o.Q):
             safe_call(o.model.predict, o.Q.copy(), o.IQ.copy()) if o.IQ is not None else safe_call(o.model.predict, o.Q.copy())
     fx, fy, fu = o.X.copy(), o.Y.copy(), o.U.copy()
+    if len(o.U) == 0 and case.get("empty_U_as") == "list":
+        fu = []
+    elif len(o.U) == 0 and case.get("empty_U_as") == "array1d":
+        fu = np.array([])
     if pf and pf.get("inplace") and o.prefit is not None:
         # the SAME array objects the model was fitted on before, overwritten in place with the case's data
         PX[:], PY[:] = o.X, o.Y
@@ -193,7 +200,10 @@ def run_case(case, with_prim_hook=True, with_heap_hooks=True):
 
 def weights(o):
     """Arc weights over all nodes of the fitted model as the code obtains them."""
-    return weight_matrix(o.model)
+    rows = None
+    if not o.model.pre_computed_distance and len(o.model.subgraph.nodes) == len(o.X) + len(o.U):
+        rows = [o.X[i] for i in range(len(o.X))] + [o.U[i] for i in range(len(o.U))]
+    return weight_matrix(o.model, rows=rows)
 
 
 def query_weights(o, Q=None, IQ=None):
@@ -210,8 +220,9 @@ def query_weights(o, Q=None, IQ=None):
                 R[t, x] = D[nd.idx][int(IQ[x])]
         return R
     fn = m.distance_fn
+    given = ([o.X[i] for i in range(len(o.X))] + [o.U[i] for i in range(len(o.U))]) if len(nodes) == len(o.X) + len(o.U) else None
     for t, nd in enumerate(nodes):
-        ft = np.array(nd.features, dtype=float, copy=True)
+        ft = np.array(given[t] if given is not None else nd.features, copy=True)
         for x in range(len(Q)):
             R[t, x] = fn(ft.copy(), np.array(Q[x], dtype=float, copy=True))
     return R
